@@ -11,6 +11,8 @@ Mirrors, as written, the path `ModelSpec.get_model_matrix(new_data)` →
   levels and its `DataMismatchWarning` condition (`transforms/contrasts.py`),
   `_get_columns_for_term`                                                    → `encodeFactor`, `termColumns`
 * `_enforce_structure`                                                       → `enforceTerm`
+* histories between fit and reuse — `ModelSpec.subset` (`model_spec.py`), one part of a
+  `ModelSpecs` used alone, a pickle round trip                               → `subsetSpec`, `derive`, `replayDerived`
 
 Python dictionaries are association lists: `dget` returns the FIRST match, `d.update(o)` is
 `o ++ d` (so later updates win), `d[k] = v` on an insertion-ordered dict is `dictSet`.
@@ -47,7 +49,7 @@ deriving DecidableEq, Repr
 inductive Err
   | factorEncoding     -- `FactorEncodingError`
   | factorEvaluation   -- `FactorEvaluationError` (a name is not in the data)
-  | valueError         -- `ValueError` of `_check_for_nulls` under `na_action='raise'`
+  | valueError         -- `ValueError` of `_check_for_nulls` under `na_action='raise'`; of `subset` for an unknown term
   | runtimeError       -- `RuntimeError("Provided ModelSpec instances are not consistent.")`
   | keyError           -- `factor_values[expr]` in `ScopedTerm.rehydrate`, `scoped_cols[col]`
   | typeError          -- `functools.reduce` of nothing; also the sentinel for a non-number cell in a
@@ -121,7 +123,7 @@ structure Spec where
   naAction : NaAction
   ensureFullRank : Bool
   output : Output
-deriving Repr
+deriving DecidableEq, Repr
 
 /-- `spec.column_names` -/
 def Spec.columnNames (s : Spec) : List String := s.structure_.flatMap (·.columns)
@@ -581,5 +583,76 @@ def replay (specs : List Spec) (fr : Frame) (order : List String) : Except Err (
     match evalPhase es fr (orderedFactors specs order) [] [] with
     | .error e => .error e
     | .ok (cache, drop) => buildAll fr drop cache specs
+
+/-! ### histories between the fit and the reuse: specs DERIVED from a recorded spec
+
+A recorded spec is rarely reused verbatim only: one part of a multi-part spec is used on its own
+(`mm[1].model_spec`, `specs.rhs`), a spec is restricted to some of its terms with
+`ModelSpec.subset(terms)`, or it is stored and loaded again (pickle). Each derivation must hand
+the reuse path the state recorded at fit time. -/
+
+/-- `Term.degree`: literal factors do not count -/
+def termDegree (t : List FactorDecl) : Nat :=
+  (t.filter (fun d => match d.via with | .literal _ => false | _ => true)).length
+
+/-- insertion by degree, BEFORE the entries of equal degree: `sortByDegree` inserts from the right,
+so the result is the stable `sorted(terms, key=degree)` of the default `OrderingMethod.DEGREE` -/
+def insertByDegree (x : List FactorDecl × TermStruct) :
+    List (List FactorDecl × TermStruct) → List (List FactorDecl × TermStruct)
+  | [] => [x]
+  | y :: r => if termDegree x.1 ≤ termDegree y.1 then x :: y :: r else y :: insertByDegree x r
+
+def sortByDegree (l : List (List FactorDecl × TermStruct)) : List (List FactorDecl × TermStruct) :=
+  l.foldr insertByDegree []
+
+/-- `ModelSpec.subset(terms_spec)` with the nominated terms given by their positions in
+`spec.formula` (distinct; the harness resolves them): the restricted formula is re-ordered by
+degree, `structure` keeps the rows of the nominated terms (row `i` of a fitted structure belongs to
+term `i`), and EVERY other field — in particular `encoder_state` and `transform_state` — is carried
+over by `self.update(formula=…, structure=…)`. A position outside the formula is the `ValueError`
+("terms not present in the original model spec"). -/
+def subsetSpec (s : Spec) (picks : List Nat) : Except Err Spec :=
+  match mapE (fun i => match s.terms[i]?, s.structure_[i]? with
+                       | some t, some ts => .ok (t, ts)
+                       | _, _ => .error .valueError) picks with
+  | .error e => .error e
+  | .ok rows =>
+    let sorted := sortByDegree rows
+    .ok { s with terms := sorted.map (·.1), structure_ := sorted.map (·.2) }
+
+/-- one derivation step applied to the recorded spec(s) -/
+inductive Step
+  | part (i : Nat)               -- one part of a multi-part spec used on its own
+  | subset (picks : List Nat)    -- `ModelSpec.subset` (a single spec only)
+  | roundTrip                    -- `pickle.loads(pickle.dumps(spec))`: the dataclass fields verbatim
+deriving DecidableEq, Repr
+
+def applyStep (specs : List Spec) : Step → Except Err (List Spec)
+  | .part i =>
+    match specs[i]? with
+    | some s => .ok [s]
+    | none => .error .keyError
+  | .subset picks =>
+    match specs with
+    | [s] =>
+      match subsetSpec s picks with
+      | .error e => .error e
+      | .ok s' => .ok [s']
+    | _ => .error .typeError      -- a `ModelSpecs` container has no `subset`
+  | .roundTrip => .ok specs
+
+def derive : List Spec → List Step → Except Err (List Spec)
+  | specs, [] => .ok specs
+  | specs, st :: r =>
+    match applyStep specs st with
+    | .error e => .error e
+    | .ok specs' => derive specs' r
+
+/-- reuse of a derived spec: the derivation history, then `replay` -/
+def replayDerived (specs : List Spec) (steps : List Step) (fr : Frame) (order : List String) :
+    Except Err (List Result) :=
+  match derive specs steps with
+  | .error e => .error e
+  | .ok specs' => replay specs' fr order
 
 end FormulaicVerif.Model.Reuse
